@@ -30,7 +30,7 @@ CLAIMED = {
  "C18": ("histsim", "HISTSIM: histories mixing name requests on the generator reached through any (sub)graph, stages, edits and restart faults; every name handed out (observed by class-level wrappers) must be new w.r.t. names issued since the last restart and names present in the hierarchy; no block overwritten through a name clash.", "4.2, 5 C18",
          "seeded interleavings of name requests, stages and restart faults against a set model"),
 }
-BUILT = ["C01","C04","C06","C12","C14","C15","C18"]
+BUILT = ["C01","C04","C06","C07","C08","C12","C14","C15","C18"]
 checks=[]
 na=[{"property_id":k,"reason":v} for k,v in sorted(NA.items())]
 for pid,(eng,text,ref,tech) in sorted(CLAIMED.items()):
